@@ -57,8 +57,9 @@ package main
 //@ func writeGoTemplate(w io.Writer, goarch string, syscalls []string) error   properties C18
 //@   ghost let prm = p at before call template.Template.Execute#1
 //@   assert @emitted_list {C18} prm.SyscallNames == syscalls && prm.GOARCH == goarch at before call template.Template.Execute#1
-//@ func writeDebugYAML(w io.Writer, syscalls []disasm.Syscall) error
-//@   trusted
+// the debug listing sorts the discovered syscalls in place (the caller's slice) and has no other effect
+//@ func writeDebugYAML(w io.Writer, syscalls []disasm.Syscall) error   properties C18
+//@   modifies syscalls
 
 // ---- C17: the cache of disassemblies (ghost file system, spec/fs.spec) ----
 //@ global buf ghost:String
@@ -124,6 +125,10 @@ package main
 //@   hint @h2b {C18} afterBL(names, syscalls) && noDup(names) at after assign size#1
 //@   hint @h3 {C18} finalSet(names, syscalls) && noDup(names) at before call sort.Strings#1
 //@   assert @profile {C18} sortedList(names) && noDup(names) && finalSet(names, syscalls) at before call openOutput#1
+// ... and that list, unchanged, is what each output format is given (whatever the debug listing does to `syscalls`)
+//@   ghost let finalNames = names at before call openOutput#1
+//@   assert @config_gets_profile {C18} call.arg1 == finalNames at before call writeProfileConfig#*
+//@   assert @code_gets_profile {C18} call.arg2 == finalNames && call.arg1 == goarch at before call writeGoTemplate#*
 //@   loop 1 binder k1 match range syscalls
 //@     invariant @m nonnil(m) && forallk(n, m, has(m, n) == exists(j, 0, k1, syscalls[j].Num == n))
 //@     invariant @vals forallk(n, m, has(m, n) ==> exists(j, 0, k1, syscalls[j].Num == n && m[n] == syscalls[j]))
